@@ -31,8 +31,9 @@ TRUST = [
     "lxml/generateDS writer+parser keep the order and values of <member>/<include> children (sampled by the XML stream)",
 ]
 ASSUMPTIONS = [
-    "theorems assume an acyclic include graph, stated as existence of a rank function (Ranked); c14_ranked_iff_acyclic-style "
-    "equivalence with 'no group reaches itself' is proved for the model (see notes)",
+    "theorems assume an acyclic include graph (Acyclic = a rank function strictly decreasing along includes exists; "
+    "c14_acyclic_iff proves this equivalent to 'no group is reachable from one of its own includes'); totality theorems "
+    "additionally assume no dangling include and no empty group id",
     "group ids are interned: 'all' -> 0, '' -> 1; a group with a duplicate id is invisible to the API (first one wins) and "
     "minimality is claimed for the visible group of each id",
     "the cell is not modified concurrently; Member/Include objects carry int segment ids / str group ids",
@@ -239,7 +240,19 @@ def run_real(case, mode, root, k):
     ask = ask_ids(case)
 
     def resolved():
-        return [[i, guarded(lambda: list(cell.get_all_segments_in_group(i)))] for i in ask]
+        out = [[i, guarded(lambda: list(cell.get_all_segments_in_group(i)))] for i in ask]
+        # the same question asked with the SegmentGroup object instead of its id (first group of each id)
+        byid = dict((i, v) for i, v in out)
+        seen = set()
+        for sg in cell.morphology.segment_groups:
+            if sg.id in seen:
+                continue
+            seen.add(sg.id)
+            v = guarded(lambda: list(cell.get_all_segments_in_group(sg)))
+            if v != byid.get(sg.id):
+                objdiff.append([sg.id, byid.get(sg.id), v])
+        return out
+    objdiff = []
 
     def op():
         if case["op"] == "group":
@@ -247,7 +260,7 @@ def run_real(case, mode, root, k):
         else:
             r = guarded(lambda: cell.optimise_segment_groups())
         return dump_groups(cell) if r is None else r
-    out = {"before": resolved()}
+    out = {"before": resolved(), "objdiff": objdiff}
     out["once"] = op()
     if isinstance(out["once"], str):
         out["after"], out["twice"] = None, None
@@ -355,6 +368,8 @@ def oracle(ctx, case, mode, real):
         return False
     ref = reference(case)
     built = "loaded" if mode == "xml" else "built"
+    if real.get("objdiff"):
+        ctx.fail("C14:object-vs-id", "get_all_segments_in_group(group object) differs from (group id): %s" % (real["objdiff"][:2],), payload)
     # 1. resolve = closure, each once
     for i, v in real["before"]:
         if isinstance(v, str):
